@@ -37,6 +37,15 @@ def generate(rng, tier):
             cases.append({"stream": "L", "input": {"text": g, "lex": 1}})
     for name, text in G.scaled(tier):
         cases.append({"stream": "S", "input": {"text": text, "name": name}})
+        if len(text) <= 60000:
+            cases.append({"stream": "P-S", "input": {"text": text, "name": name, "pipe": 1}})
+    # P: the public entry points with their default stacks, against the composed model (op 151)
+    for t in G.token_seqs(3 if tier == "quick" else 4):
+        cases.append({"stream": "P", "input": {"text": t, "pipe": 1}})
+    for _ in range(1500 if tier == "quick" else 40000):
+        r = rng.random()
+        t = G.random_token_seq(rng, 4, 14) if r < 0.4 else (G.mutate(rng, rng.choice(docs)) if r < 0.8 else rng.choice(docs))
+        cases.append({"stream": "P", "input": {"text": t, "pipe": 1}})
     return cases
 
 
@@ -62,6 +71,21 @@ def impl(case):
         marks = [[m.start(), enc.enc_str(m.group(0))] for m in _RX.finditer("\n" + text)]
         return {"sx_in": [130, enc.enc_str(text)], "sx_out": implutil.r_ok(marks), "nontrivial": len(marks) > 1,
                 "key": "lex:" + text[:100], "tags": ["lexer"], "summary": "%d marks" % len(marks)}
+    if case["input"].get("pipe"):
+        w = implutil.guarded(lambda: bibtexparser.write_string(bibtexparser.parse_string(text)))
+        rec = {"sx_in": [151, enc.enc_str(text)], "key": "pipe:" + (text if len(text) < 200 else str(hash(text))), "tags": ["pipeline"]}
+        if w[0] == "exc":
+            rec["sx_out"] = implutil.r_exc(6 if w[1] not in (5, 9, 99) else w[1])
+            rec["oracle"] = {"ok": False, "detail": "write_string(parse_string(text)) raised " + w[2]}
+            rec["summary"] = "raised " + w[2]
+        else:
+            rec["sx_out"] = implutil.r_ok(enc.enc_str(w[1]))
+            rec["oracle"] = {"ok": isinstance(w[1], str), "detail": ""}
+            rec["summary"] = repr(w[1])[:120]
+        rec["nontrivial"] = "@" in text
+        if not SC.lower_ok(text):
+            rec["skip"] = True
+        return rec
     rec, r = SC.base_record(text)
     # the property itself: default parse stack, then default write
     def full():
